@@ -3,6 +3,7 @@
 -/
 import PyElf.Gen.Structs
 import PyElf.Gen.Tables
+import PyElf.Gen.Extra_C04
 import PyElf.Spec.DwarfStructs
 import PyElf.Spec.DieTree
 import PyElf.Model.Die
@@ -10,6 +11,7 @@ import PyElf.Model.Env
 import PyElf.Proofs.DieForms
 import PyElf.Proofs.DieAbbrev
 import PyElf.Proofs.DieTop
+import PyElf.Proofs.DieBundle
 import PyElf.Spec.DwarfLookup
 namespace PyElf.Props.TieC04
 open PyElf PyElf.Spec.C04
@@ -23,6 +25,29 @@ theorem dwarf_fields :
         (Spec.dwarfStructs c).Dwarf_CU_header, (Spec.dwarfStructs c).Dwarf_TU_header, (Spec.dwarfStructs c).the_Dwarf_uleb128,
         (Spec.dwarfStructs c).the_Dwarf_offset, (Spec.dwarfStructs c).the_Dwarf_target_addr,
         (Spec.dwarfStructs c).the_Dwarf_uint32)) := by rfl
+
+/-- the same through the look-up the model (and the driver) uses, `Model.dwarfStructsFor`: for each of the 32
+    configurations it answers with a bundle whose fields read by the DIE code are the standard's -/
+theorem dwarf_fields_for :
+    Spec.allDwarfCfgs.map (fun c => (Model.dwarfStructsFor c).map fun S => (S.forms, S.Dwarf_abbrev_declaration,
+        S.Dwarf_CU_header, S.Dwarf_TU_header, S.the_Dwarf_uleb128, S.the_Dwarf_offset, S.the_Dwarf_target_addr,
+        S.the_Dwarf_uint32))
+      = Spec.allDwarfCfgs.map (fun c => some ((Spec.dwarfStructs c).forms, (Spec.dwarfStructs c).Dwarf_abbrev_declaration,
+        (Spec.dwarfStructs c).Dwarf_CU_header, (Spec.dwarfStructs c).Dwarf_TU_header, (Spec.dwarfStructs c).the_Dwarf_uleb128,
+        (Spec.dwarfStructs c).the_Dwarf_offset, (Spec.dwarfStructs c).the_Dwarf_target_addr,
+        (Spec.dwarfStructs c).the_Dwarf_uint32)) := by rfl
+
+/-- … as the agreement `Proofs.C04.BundleEq` the theorems of the entry / unit / section layers ask of a bundle -/
+theorem gen_bundles (c : DwarfCfg) (hc : c ∈ Spec.allDwarfCfgs) :
+    ∃ S, Model.dwarfStructsFor c = some S ∧ Proofs.C04.BundleEq S (Spec.dwarfStructs c) := by
+  have h := (List.map_inj_left.1 dwarf_fields_for) c hc
+  cases hS : Model.dwarfStructsFor c with
+  | none => rw [hS] at h; cases h
+  | some S =>
+    rw [hS] at h
+    simp only [Option.map_some, Option.some.injEq, Prod.mk.injEq] at h
+    obtain ⟨h1, h2, h3, h4, h5, h6, h7, h8⟩ := h
+    exact ⟨S, rfl, ⟨h1, h2, h3, h4, h5, h6, h7, h8⟩⟩
 
 /-- `DW_FORM_raw2name` (used by `_resolve_indirect`) names every standard form code as the standard does -/
 theorem raw2name_forms : formCodes.all (fun k => Model.C04.genRaw2name k == formName k) = true := by decide +kernel
@@ -38,9 +63,30 @@ theorem enum_children : Model.genEnumDecode "ENUM_DW_CHILDREN" 0 = some "DW_CHIL
 /-- the parser registered under a form's name reads the operand encoding of the form's code — for every
     configuration at once (DW_FORM_strx present, DW_FORM_strx4 = 4 bytes, DW_FORM_ref_addr = address in v2 and
     offset later, DW_FORM_strp & co. = 4/8 bytes by DWARF format are instances) -/
-theorem form_table (c : DwarfCfg) (k : Nat) (hk : k ∈ formCodes) :
+theorem form_table (c : DwarfCfg) (k : Nat) (hk : k ∈ stdFormCodes) :
     (Spec.dwarfStructs c).form ((formName k).getD "") = (formClass c k).map (Proofs.C04.clsCon c.le) :=
   Proofs.C04.form_lookup c k hk
+
+/-! ### the legacy DW_FORM_ref (code 0x02) -/
+
+/-- `Dwarf_dw_form` has, outside the form list of the bundles (`DwarfStructs.formNames`), exactly one key that is the
+    name of a form: DW_FORM_ref (the other stray key is an attribute name, which neither `ENUM_DW_FORM` nor
+    `DW_FORM_raw2name` can produce) -/
+theorem form_extra_keys :
+    Gen.dieExtraFormKeys.filter (fun k => k.toList.take 8 == "DW_FORM_".toList) = ["DW_FORM_ref"] := by decide +kernel
+
+/-- … and for all 32 configurations the regenerated `Dwarf_dw_form['DW_FORM_ref']` is the configuration's
+    `the_Dwarf_uint32` — the bundle field `Model.C04.formParser` answers with for that name (`formParser_ref`),
+    which `dwarf_fields` ties to the standard's 4-byte unsigned reader.  Tie of the model's special case. -/
+theorem form_ref_entry :
+    Gen.dieExtraForms.map (fun r => (r.1, (r.2.find? (·.1 == "DW_FORM_ref")).map (·.2)))
+      = Gen.dwarfBundles.map (fun b => (b.1, some b.2.the_Dwarf_uint32)) := by rfl
+
+theorem formParser_ref (S : DwarfStructs) : Model.C04.formParser S (.str "DW_FORM_ref") = .ok S.the_Dwarf_uint32 := rfl
+
+/-- the operand encoding the Spec gives code 0x02 (four bytes) is what that parser reads -/
+theorem form_ref_class (c : DwarfCfg) :
+    (Spec.dwarfStructs c).the_Dwarf_uint32 = Proofs.C04.clsCon c.le ((formClass c 0x02).getD .present) := rfl
 
 /-! ### the names the abbreviation struct's lambdas compare against -/
 
